@@ -3,7 +3,7 @@
 
 use crate::plan::{IdModel, RSrc, VModel, VSrc, ValueSpec};
 use nodejs_semver::{Identifier, Range, Version, MAX_SAFE_INTEGER};
-use std::panic::{catch_unwind, AssertUnwindSafe};
+use crate::run::guarded;
 
 pub fn model_to_version(m: &VModel) -> Version {
     fn ids(v: &[IdModel]) -> Vec<Identifier> {
@@ -82,7 +82,7 @@ fn tuple_version(ty: u8, a: u64, b: u64, c: u64, d: Option<u64>) -> Option<Versi
 
 pub fn build_version(src: &VSrc) -> Option<Version> {
     match src {
-        VSrc::Text(t) => catch_unwind(|| Version::parse(t).ok()).ok().flatten(),
+        VSrc::Text(t) => guarded(|| Version::parse(t).ok()).ok().flatten(),
         VSrc::Fields(m) => {
             let ok = m.major <= MAX_SAFE_INTEGER
                 && m.minor <= MAX_SAFE_INTEGER
@@ -106,20 +106,20 @@ pub fn build_version(src: &VSrc) -> Option<Version> {
 /// value is skipped and counted).
 pub fn build_range(src: &RSrc) -> Result<Option<Range>, ()> {
     match src {
-        RSrc::Text(t) => catch_unwind(|| Range::parse(t).ok()).map_err(|_| ()),
+        RSrc::Text(t) => guarded(|| Range::parse(t).ok()).map_err(|_| ()),
         RSrc::Intersect(a, b) => {
             let (a, b) = match (build_range(a)?, build_range(b)?) {
                 (Some(a), Some(b)) => (a, b),
                 _ => return Ok(None),
             };
-            catch_unwind(AssertUnwindSafe(|| a.intersect(&b))).map_err(|_| ())
+            guarded(|| a.intersect(&b)).map_err(|_| ())
         }
         RSrc::Difference(a, b) => {
             let (a, b) = match (build_range(a)?, build_range(b)?) {
                 (Some(a), Some(b)) => (a, b),
                 _ => return Ok(None),
             };
-            catch_unwind(AssertUnwindSafe(|| a.difference(&b))).map_err(|_| ())
+            guarded(|| a.difference(&b)).map_err(|_| ())
         }
     }
 }
